@@ -375,3 +375,43 @@ CHECKS["C07"] = dict(
         technique="explicit-state BFS over operation histories on the real code with full-state capture/restore and hashing",
         ref="DESIGN.md 3/C07"),
 )
+
+CHECKS["C08"] = dict(
+    level="model_checking",
+    jobs=lambda tier: [dict(name="c08", variant="hook", sources=["e_c08.c"] + RT, flags=["-fno-builtin", "-fno-tree-loop-distribute-patterns"], opt="-O1"),
+                       # free-running pass under the real ThreadSanitizer runtime (not the deciding step: keeps races outside the hook set visible)
+                       dict(name="c08tsan", variant="tsan", sources=["e_c08t.c"], shards=1, stderr_violation=r"WARNING: ThreadSanitizer: data race"),
+                       dict(name="c08tsancanary", variant="tsan", sources=["e_c08t.c"], shards=1, args=["canary"], canary=True, timeout=90, stderr_must_match=r"WARNING: ThreadSanitizer: data race")],
+    coverage=lambda stats, tier: dict(
+        states=int(stats.get("configurations", 0)), transitions=int(stats.get("schedules", 0)),
+        traces_validated_against_impl=int(stats.get("schedules", 0)),
+        schedules=int(stats.get("schedules", 0)), schedules_at_bound_2=int(stats.get("schedules_at_bound_2", 0)),
+        configurations=int(stats.get("configurations", 0)), evaluations=int(stats.get("evaluations", 0)),
+        distinct_nontrivial=int(stats.get("configurations", 0)),
+        rule="stateless schedule exploration of real pthreads over the real library under a cooperative scheduler: alphabet of 42 re-entrant "
+             "operations (crypt_rn for 16 methods, crypt_r, crypt_ra, crypt_gensalt_rn for 14 prefixes + count + NULL prefix + rbytes==NULL, "
+             "crypt_gensalt_ra, crypt_checksalt, crypt_preferred_method); configurations: every ordered pair as 2 threads x 1 operation, 2 threads "
+             "x 2 operations for same/neighbour pairs, 3 threads x 1 operation over a 6 (quick) / 12 (thorough) operation sub-alphabet; every "
+             "configuration explored to completion for preemption bounds 0, 1, 2; scheduling points = operation start/end + every write to the "
+             "library's writable image + every read of an image byte ever written + every access to another thread's object; per execution a "
+             "byte-granular shadow of the image detects cross-thread conflicting accesses; results compared with solo results; 'states' counts "
+             "configurations, 'transitions' counts complete executions (schedules)",
+        max_points_per_execution=int(stats.get("max_points_per_execution", 0)),
+        configurations_with_shared_writes=int(stats.get("configurations_with_shared_writes", 0)),
+        canary_runs=int(stats.get("canary_runs", 0)), canary_detected=int(stats.get("canary_detected", 0)),
+        horizon_capped_executions=int(stats.get("horizon_capped_executions", 0))),
+    assumptions=["accesses are those gcc -fsanitize=thread instruments plus the interposed libc routines; hardware memory-model effects are out of scope (the library has no atomics)",
+                 "the library's import list is checked against the modelled set on every run; an unknown import is an internal error, not a pass",
+                 "branching is limited to the first 60 scheduling points of an execution (only the MT-unsafe canary and broken trees have that many)"],
+    nonvacuous=lambda s, t: None if s.get("canary_runs", 0) and s.get("canary_detected", 0) == s.get("canary_runs", 0) and s.get("configurations", 0) > 100 else "canary not detected: the instrument is blind",
+    deadline=dict(quick=300, thorough=1700),
+    manifest=dict(
+        text="Stateless model checking of the implementation: preemption-bounded (0,1,2) exhaustive exploration of thread schedules of real "
+             "pthreads calling the re-entrant API concurrently, under a hand-off scheduler whose scheduling points come from compiler-inserted "
+             "access hooks (gcc -fsanitize=thread objects linked against the harness's own __tsan_* runtime); data races are decided by a shadow "
+             "of the library's writable image, results by comparison with solo executions; a canary on the documented MT-unsafe crypt()/"
+             "crypt_gensalt() must be detected on every run.",
+        note="trusted base: completeness of gcc's tsan instrumentation + the interposed libc routines; a free-running pass under the real ThreadSanitizer runtime complements it in the thorough tier.",
+        technique="preemption-bounded exhaustive schedule exploration (CHESS-style) of real threads on the real code, with access-hook scheduling points",
+        ref="DESIGN.md 3/C08"),
+)
